@@ -45,7 +45,8 @@ from C02 import Recorder, check_common, crash_sig
 VFILES = ["SelfCal/WeightModel.v", "SelfCal/WeightProofs.v", "SelfCal/LsqModel.v", "SelfCal/LsqProofs.v",
           "SelfCal/LsqLinkModel.v", "SelfCal/LsqLinkProofs.v", "SelfCal/WeightQI.v", "SelfCal/GuardModel.v",
           "SelfCal/GuardProofs.v", "SelfCal/C18MErrorModel.v", "SelfCal/C18MErrorProofs.v", "SelfCal/PvalueModel.v",
-          "SelfCal/PvalueProofs.v", "SelfCal/PvalueQI.v", "Properties_C18.v"]
+          "SelfCal/PvalueProofs.v", "SelfCal/PvalueQI.v", "SelfCal/VMatrixModel.v", "SelfCal/VMatrixQI.v",
+          "SelfCal/ExactOverModel.v", "SelfCal/ExactOverProofs.v", "SelfCal/ExactOverExample.v", "Properties_C18.v"]
 
 SIG_NF = [1e-6, 1e-4, 1e-2]
 SIG_TR = [None, 0.0, 1e-5, 1e-3, 1e-1]
@@ -962,6 +963,311 @@ def part_statistics(ctx, rec, exe):
     ctx.extra["statistics"] = summary
 
 
+
+# ------------------------------------------------------------------------------------------ V-matrix machinery (package G)
+import c18_gen as VG
+
+
+def _vq(drv, lines):
+    rc, out, err = vplib.sh([drv], input="\n".join(lines) + "\n", timeout=300)
+    if rc != 0:
+        raise RuntimeError("drv_vmatrix failed: %s" % err[-300:])
+    return [l for l in out.splitlines() if l]
+
+
+def _vmat_replay(ctx, rec, drv, sc, recs, r, stats):
+    """Replay one solve of the white-box build against VMatrixModel, frequency by frequency.
+    Returns a list of (obligation name, detail) failures."""
+    fails = []
+    tcode = VG.TYPE_CODE[sc.typ]
+    for fr in recs:
+        where = "%s f%d" % (sc.sid, fr["findex"])
+        P = VG.prob_text(fr, tcode)
+        nstd = fr["nstd"]
+        vinit_c = [fr["vinit"].get(i) for i in range(nstd)]
+        lines = ["vinit " + P, "vweights %s %s" % (VG.rsqrt_table(fr), P)]
+        out = _vq(drv, lines)
+        if len(out) != 2 or not out[0].startswith("vinit ") or not out[1].startswith("vweights"):
+            fails.append(("tie:v_init_vs_VMatrixModel.init_v_matrices", "%s: driver answered %r" % (where, out[:2])))
+            continue
+        st = VG.parse_state(out[0].split()[1:])
+        sel = random.Random(hash((sc.sid, fr["findex"])) & 0xffffffff)
+        # (1) the V matrices at the start of EVERY frequency: allocation decision + identity
+        okv, worst = VG.state_close(vinit_c, st, 0.0)
+        stats["vinit"] += 1
+        if not okv:
+            fails.append(("tie:v_init_vs_VMatrixModel.init_v_matrices",
+                          "%s: the V matrices at the start of frequency %d are not the identity matrices the model "
+                          "holds (init_v_matrices is called by start_frequency at every frequency); worst cell "
+                          "difference %.3g" % (where, fr["findex"], worst)))
+        # (2) the weight vector: 1/sqrt(nf^2 + tr^2 |m[vne_row * m_columns + vne_column]|^2), systems in order
+        wt = out[1].split()
+        if fr["w"] is None or wt[1] == "-":
+            fails.append(("tie:w_vector_vs_VMatrixModel.calc_weights", "%s: no weight vector" % where))
+        else:
+            wm = [Fraction(x) for x in wt[2:]]
+            stats["weights"] += len(wm)
+            if len(wm) != len(fr["w"]):
+                fails.append(("tie:w_vector_vs_VMatrixModel.calc_weights", "%s: %d weights, model %d" % (where, len(fr["w"]), len(wm))))
+            else:
+                for k, (a, b) in enumerate(zip(fr["w"], wm)):
+                    if abs(float(a) - float(b)) > 1e-12 * abs(float(b)):
+                        fails.append(("tie:w_vector_vs_VMatrixModel.calc_weights",
+                                      "%s: w_vector[%d] = %.17g, the model (own cell vne_row * m_columns + vne_column of a "
+                                      "%dx%d calibration) %.17g" % (where, k, float(a), fr["rows"], fr["cols"], float(b))))
+                        break
+                if len(set(fr["w"])) > 1:
+                    stats["weights_distinct"] += 1
+        # (3) the no-V thread of every equation = the terms with v_cell % (v_columns + 1) == 0
+        vn = fr["cols"] if tcode in (0, 2) else fr["rows"]
+        for s in range(fr["nsys"]):
+            for (std, row, col, terms), nov in zip(fr["eqs"].get(s, []), fr["nov"].get(s, [])):
+                exp = [(t[3], t[4], t[1], t[2]) for t in terms if t[3] % (vn + 1) == 0]
+                if exp != nov or any(t[3] < 0 for t in terms):
+                    fails.append(("tie:no_v_thread_vs_VMatrixModel.eq_terms", "%s: system %d equation (%d,%d) of standard %d: "
+                                  "thread %r, model %r" % (where, s, row, col, std, nov, exp)))
+        # (4) passes: rows with the model's V state and the code's weights; V update from the code's x
+        ev = fr["events"]
+        i = 0
+        woff = 0
+        wtxt = "-" if fr["w"] is None else "%d %s" % (len(fr["w"]), " ".join(VG.qs(x) for x in fr["w"]))
+        u = fr["unknowns"]
+        sys_done = 0
+        for s in range(fr["nsys"]):
+            neq = len(fr["eqs"].get(s, []))
+            prev = fr["xinit"][s * u:(s + 1) * u]
+            npass = 0
+            while True:
+                if i >= len(ev) or ev[i]["kind"] != "solve":
+                    break
+                e = ev[i]
+                i += 1
+                npass += 1
+                pick = sorted(sel.sample(range(neq), min(neq, 3)))
+                wsub = "-" if fr["w"] is None else "%d %s" % (len(pick), " ".join(VG.qs(fr["w"][woff + j]) for j in pick))
+                q = ["vrows %s %s %d %s 0" % (VG.prob_text(fr, tcode, only={s: pick}), VG.state_text(st), s, wsub),
+                     "vhave %s %s %d" % (P, VG.state_text(st), s)]
+                o = _vq(drv, q)
+                rt = o[0].split()
+                vals = [Fraction(x) for x in rt[3:]]
+                nr, nu = int(rt[1]), int(rt[2])
+                stats["passes"] += 1
+                stats["rows"] += nr
+                bad = None
+                if neq != e["m"] or nu != e["n"] or "A" not in e or nr != len(pick):
+                    bad = "shape %dx%d, model %dx%d" % (e["m"], e["n"], neq, nu)
+                else:
+                    for k2, rr in enumerate(pick):
+                        base = k2 * (2 * nu + 2)
+                        rowm = [(vals[base + 2 * j], vals[base + 2 * j + 1]) for j in range(nu)]
+                        bm = (vals[base + 2 * nu], vals[base + 2 * nu + 1])
+                        rowc = e["A"][rr * nu:(rr + 1) * nu]
+                        bc = e["b"][rr]
+                        scale = max([VG.cabs(z) for z in rowm] + [VG.cabs(bm), 1e-300])
+                        d = max([VG.cdiff(a, b) for a, b in zip(rowc, rowm)] + [VG.cdiff(bc, bm)])
+                        if d > 1e-8 * scale:
+                            bad = "row %d differs by %.3g (scale %.3g)" % (rr, d, scale)
+                            break
+                if bad:
+                    fails.append(("tie:coefficient_rows_vs_VMatrixModel.build_eqs",
+                                  "%s: system %d pass %d: %s" % (where, s, npass, bad)))
+                have = o[1].split()[1] == "1"
+                x = e.get("x")
+                nxt = ev[i] if i < len(ev) else None
+                has_upd = nxt is not None and nxt["kind"] == "upd"
+                solved_ok = ("rank=%d" % u) == e.get("tail") or (e.get("tail", "").startswith("det=") and e["tail"] != "det=0,0")
+                if not solved_ok:
+                    break
+                if have != has_upd:
+                    fails.append(("tie:v_loop_vs_VMatrixModel.v_loop", "%s: system %d pass %d: the code %s the V matrices, "
+                                  "the model's vs_have_v is %s" % (where, s, npass, "updated" if has_upd else "did not update", have)))
+                    break
+                if not has_upd:
+                    break
+                i += 1
+                xtxt = " ".join(VG.cx(z) for z in x)
+                vis = VG.parse_vvi(_vq(drv, ["vvi %s %d %d %s" % (P, s, u, xtxt)])[0])
+                tab = []
+                for vi in vis:
+                    inv = VG.cinverse(vi, vn)
+                    tab.append("%d %s %s" % (len(vi), " ".join(VG.cx(z) for z in vi),
+                                             "0" if inv is None else "1 " + " ".join(VG.cx(z) for z in inv)))
+                uo = _vq(drv, ["vupdt %s %s %d %d %s %d %s" % (P, VG.state_text(st), s, u, xtxt, len(tab), " ".join(tab))])
+                if nxt["rc"] != 0 or uo[0].startswith("vupd singular"):
+                    if (nxt["rc"] != 0) != uo[0].startswith("vupd singular"):
+                        fails.append(("tie:v_update_vs_VMatrixModel.update_v_matrices",
+                                      "%s: system %d pass %d: rc %d, model %s" % (where, s, npass, nxt["rc"], uo[0][:20])))
+                    break
+                st2 = VG.parse_state(uo[0].split()[1:])
+                vc = [nxt["state"].get(k) for k in range(nstd)]
+                okv, worst = VG.state_close(vc, st2, 1e-8)
+                stats["updates"] += 1
+                if not okv:
+                    fails.append(("tie:v_update_vs_VMatrixModel.update_v_matrices",
+                                  "%s: system %d pass %d: V matrices after the update differ from (Tx S + Tm)^-1 / (Um - S Ux)^-1 "
+                                  "of the model by %.3g" % (where, s, npass, worst)))
+                st = VG.round_state(st2)
+                co = _vq(drv, ["vconv %s %d %d %s %s" % (VG.qs(fr["tol"]), u, u, " ".join(VG.cx(z) for z in x),
+                                                              " ".join(VG.cx(z) for z in prev))])
+                conv = co[0].split()[1] == "1"
+                more = i < len(ev) and ev[i]["kind"] == "solve"
+                if conv:
+                    break
+                if npass >= max(1, fr["limit"]):
+                    break
+                # the model's test fails and passes remain: the code must solve THIS system again
+                again = i < len(ev) and ev[i]["kind"] == "solve" and not (
+                    i + 1 < len(ev) and ev[i + 1]["kind"] == "upd" and ev[i + 1]["sindex"] != s)
+                if not again and r["solve"] and r["solve"][-1]["rc"] == 0:
+                    fails.append(("tie:v_loop_vs_VMatrixModel.v_loop",
+                                  "%s: system %d: the code left the loop over V after pass %d although sum |dx|^2 / unknowns > "
+                                  "et_tolerance^2 on its own x (the model continues; limit %d)" % (where, s, npass, fr["limit"])))
+                    break
+                prev = x
+            woff += neq
+            sys_done += 1
+        if i != len(ev) and r["solve"] and r["solve"][-1]["rc"] == 0:
+            fails.append(("tie:v_loop_vs_VMatrixModel.v_loop", "%s: the code made %d solver / update calls, the replay of the "
+                          "model's loop (convergence test on the code's x) accounts for %d" % (where, len(ev), i)))
+    return fails
+
+
+def part_vmatrix(ctx, rec):
+    """White-box replay of _vnacal_new_solve_simple with the model on against VMatrixModel: V matrices at the
+    start of every frequency, weight vector, no-V threads, coefficient rows of every pass, V update, loop."""
+    wbv = VG.build_wbv(ctx)
+    drv = ctx.ocaml_driver("drv_vmatrix")
+    rng = random.Random(ctx.rng.getrandbits(48))
+    cases = []
+    k = 0
+    sq = [("T8", 2), ("U8", 2), ("TE10", 2), ("UE10", 2), ("UE14", 2), ("E12", 2), ("T16", 2), ("U16", 2), ("T8", 1), ("U8", 1)]
+    rect = [("T8", 1, 2), ("T8", 2, 3), ("TE10", 2, 3), ("U8", 2, 1), ("U8", 3, 2), ("UE10", 3, 2), ("UE14", 2, 1), ("UE14", 3, 2),
+            ("E12", 3, 2), ("T16", 1, 2), ("U16", 2, 1)]
+    if ctx.tier == "quick":
+        sq = sq[:6] + rng.sample(sq[6:], 2)
+        rect = rect[:2] + rng.sample(rect[2:], 5)
+    for typ, n in sq:
+        for noisy in ((True, False) if (ctx.tier != "quick" or k % 4 == 0) else (True,)):
+            k += 1
+            cases.append(VG.scen_square(rng, "vm%d_%s_%d" % (k, typ, n), typ, n, rng.choice([2, 3]),
+                                        rng.choice([1e-4, 1e-3]), rng.choice([1e-3, 1e-2, 5e-2]), noisy))
+    for typ, mr, mc in rect:
+        k += 1
+        cases.append(VG.scen_rect(rng, "vr%d_%s_%dx%d" % (k, typ, mr, mc), typ, mr, mc, 2,
+                                  rng.choice([1e-4, 1e-3]), rng.choice([1e-2, 5e-2, 1e-1]), True))
+    stats = {"vinit": 0, "weights": 0, "weights_distinct": 0, "passes": 0, "updates": 0, "multi_freq_with_v": 0, "rect": 0, "rows": 0}
+    allfails = []
+    for sc in cases:
+        rc, out, err = vplib.sh([wbv], input=sc.text(), timeout=120, env=G.run_env(ctx, True))
+        res, _ = G.parse_output(out)
+        r = res.get(sc.sid) or {"solve": [], "ended": False}
+        if rc != 0 and not r.get("ended"):
+            sig = vplib.asan_signature(err) or {"kind": "fault", "error": "exit %d" % rc, "function": None}
+            rec.add(sig, "white-box V-matrix scenario %s died: %s" % (sc.sid, sig.get("error")), sc, None, err[-800:])
+            continue
+        recs = VG.parse_wbv(out)
+        ctx.count(("vmat", sc.typ, sc.meta.get("mr", sc.n), sc.meta.get("mc", sc.n), sc.meta.get("noisy")))
+        ctx.traces_validated += 1
+        if not recs:
+            allfails.append(("tie:v_init_vs_VMatrixModel.init_v_matrices", "%s: no white-box record (solve_simple not reached?)" % sc.sid, sc))
+            continue
+        if len(recs) >= 2 and any(any(v is not None for v in fr["vinit"].values()) for fr in recs[1:]):
+            stats["multi_freq_with_v"] += 1
+        if sc.meta.get("family") == "vmat_rect":
+            stats["rect"] += 1
+        if not sc.meta.get("noisy") and r["solve"] and r["solve"][-1]["rc"] != 0:
+            rec.add({"kind": "exact_rejected", "where": "vmatrix", "type": sc.typ},
+                    "exact over-determined data with the model on: vnacal_new_solve failed (%s)" % r["solve"][-1].get("msg"), sc, None)
+        for name, detail in _vmat_replay(ctx, rec, drv, sc, recs, r, stats):
+            allfails.append((name, detail, sc))
+    names = ["tie:v_init_vs_VMatrixModel.init_v_matrices", "tie:w_vector_vs_VMatrixModel.calc_weights",
+             "tie:no_v_thread_vs_VMatrixModel.eq_terms", "tie:coefficient_rows_vs_VMatrixModel.build_eqs",
+             "tie:v_update_vs_VMatrixModel.update_v_matrices", "tie:v_loop_vs_VMatrixModel.v_loop"]
+    for nm in names:
+        mine = [f for f in allfails if f[0] == nm]
+        ctx.obligation(nm, not mine, mine[0][1] if mine else
+                       "%d scenarios (%d rectangular, %d with V matrices at two or more frequencies): %d frequency starts, %d weights "
+                       "(%d vectors with distinct weights), %d passes (%d coefficient rows sampled), %d V updates"
+                       % (len(cases), stats["rect"], stats["multi_freq_with_v"], stats["vinit"], stats["weights"],
+                          stats["weights_distinct"], stats["passes"], stats["rows"], stats["updates"]))
+        for _, detail, sc in mine[:1]:
+            rec.add({"kind": "model_code_disagree", "tie": nm, "type": sc.typ}, detail, sc, None)
+    cover = stats["rect"] > 0 and stats["multi_freq_with_v"] > 0 and stats["updates"] > 0 and stats["weights_distinct"] > 0
+    ctx.obligation("tie:vmatrix_coverage", cover, "rectangular %d, multi-frequency with V %d, updates %d, distinct-weight vectors %d"
+                   % (stats["rect"], stats["multi_freq_with_v"], stats["updates"], stats["weights_distinct"]))
+    return not allfails and cover
+
+
+
+def part_noise_spline(ctx, rec, exe):
+    """Noise vectors on their OWN grid of 3 .. 6 points with curvature, calibration frequencies in every
+    segment (first, interior, last, on a knot): the stored vn_m_error_vector against C10's spline model
+    (coq/Interp/SplineModel.v, extracted) evaluated in exact rationals."""
+    drv = ctx.ocaml_driver("drv_vmatrix")
+    rng = random.Random(ctx.rng.getrandbits(48))
+    scs = []
+    ncase = 10 if ctx.tier == "quick" else 60
+    for k in range(ncase):
+        npts = [3, 4, 5, 6, 3, 4, 5][k % 7]
+        lo, hi = 1.0e9, 2.0e9
+        steps = [rng.uniform(0.6, 1.4) for _ in range(npts - 1)]
+        tot = sum(steps)
+        gf = [lo * 0.9]
+        for st_ in steps:
+            gf.append(gf[-1] + (hi * 1.1 - lo * 0.9) * st_ / tot)
+        gf[-1] = hi * 1.1
+        # calibration frequencies: one in every segment (lo / hi bound the usable part) + one knot
+        cal = []
+        for i in range(npts - 1):
+            f = gf[i] + (gf[i + 1] - gf[i]) * rng.uniform(0.15, 0.85)
+            if lo <= f <= hi:
+                cal.append(f)
+        inner = [g for g in gf[1:-1] if lo < g < hi]
+        if inner:
+            cal.append(rng.choice(inner))
+        cal = sorted(set([lo, hi] + cal))
+        nfv = [10 ** rng.uniform(-5, -3) for _ in gf]          # curvature: independent values
+        trv = [10 ** rng.uniform(-4, -2) for _ in gf]
+        typ = rng.choice(["T8", "U8", "UE14"])
+        sc = G.Scenario("ns%d" % k, typ, 1, cal)
+        sc.cmd("merror %d %s %s %s" % (npts, " ".join(G.fnum(x) for x in gf), " ".join(G.fnum(x) for x in nfv),
+                                       " ".join(G.fnum(x) for x in trv)))
+        sc.cmd("dumpmerror")
+        sc.meta.update({"family": "noise_spline", "grid": gf, "nf": nfv, "tr": trv, "cal": cal})
+        scs.append(sc)
+    res = G.run_batch(ctx, exe, scs)
+    bad = []
+    nval = 0
+    for sc in scs:
+        r = res.get(sc.sid) or {}
+        mv = (r.get("merrorvec") or [None])[-1]
+        ops = [o for o in r.get("ops", []) if o.get("op") == "merror"]
+        if mv is None:
+            bad.append((sc, "no stored vector (set_m_error returned %s)" % (ops[-1].get("rc") if ops else "?")))
+            continue
+        m = sc.meta
+        out = _vq(drv, [VG.spline_query(0.0, m["grid"], m["nf"], m["cal"]), VG.spline_query(0.0, m["grid"], m["tr"], m["cal"])])
+        if len(out) != 2 or "einval" in out[0] or "einval" in out[1]:
+            bad.append((sc, "model: %r" % out))
+            continue
+        mn = [float(Fraction(x)) for x in out[0].split()[1:]]
+        mt = [float(Fraction(x)) for x in out[1].split()[1:]]
+        ctx.count(("noise_spline", len(m["grid"]), len(m["cal"])))
+        for i, (a, b) in enumerate(mv):
+            nval += 2
+            scale_n = max(abs(x) for x in m["nf"])
+            scale_t = max(abs(x) for x in m["tr"])
+            if abs(a - mn[i]) > 1e-9 * scale_n or abs(b - mt[i]) > 1e-9 * scale_t:
+                bad.append((sc, "calibration frequency %d (%.6g Hz) on a %d-point noise grid: stored (%.12g, %.12g), cubic "
+                                "spline through the given points (%.12g, %.12g)" % (i, m["cal"][i], len(m["grid"]), a, b, mn[i], mt[i])))
+                break
+    ctx.obligation("tie:noise_vector_vs_SplineModel.spline_interp", not bad,
+                   bad[0][1] if bad else "%d noise grids of 3..6 points with curvature, %d stored values compared (1e-9)" % (len(scs), nval))
+    for sc, detail in bad[:1]:
+        rec.add({"kind": "noise_grid", "where": "own grid with curvature"}, detail, sc, None)
+    return not bad
+
+
 def run(ctx):
     ctx.level = "proof"
     ctx.trusted_base = [
@@ -978,14 +1284,17 @@ def run(ctx):
         "the weight function wt of WeightModel / LsqLinkModel is an abstract Section variable (premise: no zero value) in the alignment "
         "theorems; exact_data_*_weight_formula instantiate it with PvalueModel.weight (the premise follows from sigma_nf > 0); the "
         "chi-square tail function is a parameter of WeightModel.pvalue_of and modelled as coded in PvalueModel.chisq_pvalue",
-        "the coefficient rows of LsqLinkModel are a parameter (with the model on they carry V-matrix factors; the V-matrix update maps are not modelled)",
+        "the coefficient rows of LsqLinkModel are a parameter; VMatrixModel.v models the rows with their V and weight factors, the V update maps "
+        "and the loop over V as coded, with _vnacommon_minverse / _mldivide / _qrsolve and 1/sqrt as Section variables (premise solver_spec: an answer "
+        "minimises, full column rank gives an answer); the term lists of the equations are data (white-box dump), build_equation_terms is not modelled",
         "GuardModel: the well-formedness premises of save / restore are those init_vvec_wf proves of the model of _vnacal_new_solve_init "
         "(tied); that the QR solve returns the least-squares minimiser is C19's subject",
         "OCaml extraction (ExtrOcamlBasic) and ocaml/glue.ml.inc; gcc, ASan/UBSan/LSan, valgrind; the python measurement oracle lib/selfcal_gen.py",
     ]
     ctx.assumptions = ["exact field arithmetic stands for binary64 arithmetic (rounding is outside every theorem)",
                        "not proved: rejection rates under Gaussian noise and for 100-sigma outliers (thorough tier, support only); "
-                       "the V-matrix update maps are not modelled (the exact-data theorems take the terms of the equations as given)"]
+                       "exact_data_fixed_point_thm takes the term lists of the equations as given (premise: every v_cell group sums to zero at the truth), "
+                       "full column rank on the reachable V states and a regular V update as premises"]
     ctx.rule = ("one evaluation = one calibration scenario (three solves: unweighted, weighted, disabled again) through the public "
                 "API, one white-box weight/index comparison, one white-box p-value comparison, one history of set_m_error calls, or one noisy trial; distinct = distinct (type, dimension, sigma_nf, "
                 "sigma_tr, noise grid, seed-derived data)")
@@ -1008,6 +1317,10 @@ def run(ctx):
     vg_ok = part_vguard(ctx, rec, wb, drv, 8 if ctx.tier == "quick" else 80)
     ctx.log("exactly determined")
     ed_ok = part_exactly_determined(ctx, rec, exe)
+    ctx.log("V-matrix machinery of solve_simple vs VMatrixModel")
+    vm_ok = part_vmatrix(ctx, rec)
+    ctx.log("noise vectors on their own grid vs SplineModel")
+    ns_ok = part_noise_spline(ctx, rec, exe)
     if ctx.tier != "quick":
         ctx.log("statistics")
         part_statistics(ctx, rec, exe)
@@ -1024,5 +1337,9 @@ def run(ctx):
         ctx.unproved("tie:weights", "white-box weight comparison failed", "weight tie cases of this run")
     if not vg_ok and not ctx.violations:
         ctx.unproved("tie:v_matrices", "V-matrix walk comparison failed", "V-matrix scenarios of this run")
+    if not ns_ok and not ctx.violations:
+        ctx.unproved("tie:noise_vector_vs_SplineModel.spline_interp", "stored noise vector differs from the spline model", "noise grids of this run")
+    if not vm_ok and not ctx.violations:
+        ctx.unproved("tie:vmatrix", "V-matrix replay against VMatrixModel failed", "V-matrix scenarios of this run")
     if not ed_ok and not ctx.violations:
         ctx.unproved("tie:exactly_determined", "exactly determined scenario failed", "exactly determined scenarios of this run")
